@@ -184,6 +184,7 @@ type Exec struct {
 	addrNext  uint64
 	objAddr   map[*Value]uint64
 	NeedWit   func(id string) bool // asks whether a witness for this reach id is still wanted
+	WantPathSample func(harness string) bool // asks whether this completed path should be replayed natively
 	Env       map[string]interface{}
 	curPos    token.Pos
 	posStack  []token.Pos
@@ -284,6 +285,13 @@ func (ex *Exec) RunPath(fn *ssa.Function, item WorkItem) (res PathResult) {
 	}()
 	ex.call(fn, nil)
 	ex.flushObs()
+	// sampled differential check of the "holds" side: a model of this completed path is run natively
+	// and must reach the end of the harness without failing any assertion
+	if ex.WantPathSample != nil && len(res.Violations) == 0 && len(ex.threads) >= 1 && ex.WantPathSample(ex.harness) {
+		if tape, ok := ex.minimizedTape(ex.C.True); ok {
+			res.Witnesses = append(res.Witnesses, ReachWitness{ID: "\x00path", Tape: tape})
+		}
+	}
 	if ex.failOb >= 0 {
 		panic(pathEnd{PathInconclusive, fmt.Sprintf("engine: scheduled obligation %d not reached (non-determinism)", ex.failOb)})
 	}
